@@ -74,6 +74,9 @@ PLAN["C09"] = {
                 + [{"binary": b, "package": b, "profile": "C09", "runs": 50000, "chunks_per_job": 1} for b in SCHED_BINS],
     "timeout_s": {"quick": 1200, "thorough": 7200},
 }
+# C15 also covers resource views of systems: the schedule simulator compares them with sequential execution.
+for _t, _n in (("quick", 2500), ("thorough", 40000)):
+    PLAN["C15"][_t] = PLAN["C15"][_t] + [{"binary": b, "package": b, "profile": "C15", "runs": _n, "chunks_per_job": 1} for b in SCHED_BINS]
 # C17 also injects panics into system bodies and parallel items.
 for _t, _n_s, _n_p in (("quick", 1500, 30000), ("thorough", 30000, 600000)):
     PLAN["C17"][_t] = PLAN["C17"][_t] + [{"binary": b, "package": b, "profile": "C17", "runs": _n_s, "chunks_per_job": 1} for b in SCHED_BINS] \
@@ -85,7 +88,7 @@ STUB_E2 = ["rayon-core join / join_context / current_num_threads (vendored copy 
 ASSUME_E2 = [
     "sampling of schedules x worlds x scheduler decisions: a clean batch is evidence, not proof",
     "brood-internal code between two harness callbacks is atomic to the scheduler; overlap is judged structurally from the recorded fork/join tree (series-parallel paths), so one run covers all interleavings of its tree",
-    "the schedule catalogue is generated at build time (48 schedules, 169 tasks) because staging is decided by trait resolution",
+    "the schedule catalogue is generated at build time (48 schedules, 174 tasks) because staging is decided by trait resolution",
     "the simulated join reproduces rayon's contract: both closures run to completion, a's panic wins",
 ]
 
